@@ -17,6 +17,9 @@ RULE = (
     '  Added: new frames that keep their labels, categoricals declaring only what occurs (evaluated '
     'consecutively), chained evaluations, a work frame refilled in place, helper terms with a stateful numeric '
     'part, an observation-level factor, integers beyond 2^53 compared exactly, 8-bit integer products. '
+    'Later: 1120-row training frames, a covariate with ties, case-only differing values, the same text built '
+    "on other data first, the caller's copies overwritten and its level lists reversed before a last "
+    'evaluation. '
 )
 ASSUMPTIONS = [
     "tolerance rtol=1e-9, atol=1e-12 (vector/tail loops may differ in the last ulp)",
